@@ -32,6 +32,7 @@ RULE += (" " + 'File paths have equal and different leaf directory names under d
 RULE += (" One document in five is a correlation rule drawing title, id and path from the same pools.")
 RULE += (" One id in six is malformed (not a UUID): such a document is loaded with error collection, which keeps the text as the rule id, and takes part in the identifier groups under that text.")
 RULE += (" Glob sweep: every selector pattern over {a, b, _, *} up to length 4 (thorough: 6) against a rule defining every name over {a, b, _} up to length 4 (5): unused-detection and dangling-selector issues must agree with glob matching.")
+RULE += (" After that a run over the same rules plus a rule on which the condition validators raise (pipe syntax) is aborted by the exception, and a further run over the rules gives the same issues again.")
 RULE += (" The validator object is used for a second run over the same rules: same issues again, and the issues of the first run unchanged.")
 ASSUMPTIONS = [
     "vf/ref/conditions.py defines which detections a condition refers to",
@@ -257,6 +258,22 @@ def check_case(case: dict) -> Outcome:
             out.fail(f"C19:second-run-differs:{sorted({k[0] for k in diff})[0]}", f"validators {vnames}: a second validate_rules() with the same validator object over the same rules: {list(diff.items())[:3]}"[:900])
         elif Counter(_norm_issue(i, key0) for i in first) != first_n:
             out.fail("C19:returned-issues-changed-later", f"validators {vnames}: the issues of the first run changed during the second run")
+        # a validation run that is aborted by an exception (a rule whose condition uses the unsupported pipe syntax loads, but the
+        # condition validators raise on it) leaves nothing to the next run of the same validator object
+        from sigma.rule import SigmaRule as _SR
+        from sigma.exceptions import SigmaError
+        poison = _SR.from_dict({"title": "poison", "logsource": {"category": "proc"}, "detection": {"sel": {"a": 1}, "condition": "sel | count() > 1"}})
+        aborted = False
+        try:
+            val.validate_rules(iter(rules0 + [poison]))
+        except SigmaError:
+            aborted = True
+        if aborted:
+            out.label("aborted-run-then-run-again")
+            third_n = Counter(_norm_issue(i, key0) for i in val.validate_rules(iter(rules0)))
+            if third_n != first_n:
+                diff = (third_n - first_n) + (first_n - third_n)
+                out.fail(f"C19:run-after-aborted-run-differs:{sorted({k[0] for k in diff})[0]}", f"validators {vnames}: validate_rules() after a run that was aborted by an exception: {list(diff.items())[:3]}"[:900])
         after = _snapshot(rules0)
         if before != after:
             bad = next(i for i in range(n) if before[i] != after[i])
